@@ -127,6 +127,18 @@ func PF() int { return 0 }
 // @packageonly zz
 func (s S) PM() {}
 
+// MkS is test-only; a method call can be chained onto its result.
+// @testonly
+func MkS() S { return S{} }
+
+// PF2 is restricted and takes arguments, so that other uses can be nested inside a call to it.
+// @packageonly zz
+func PF2(x ...any) int { return 0 }
+
+// PM2 is restricted and takes arguments.
+// @packageonly zz
+func (s S) PM2(x ...any) {}
+
 type Iface interface{ Do() }
 
 type Other struct{ A int }
@@ -217,6 +229,17 @@ func f1(x d.T, p *d.T, s d.S, y int) {
 		return d.Helper()
 	})`)
 	lines(ua, `	_ = d.Wrap(d.Mock{})`, "TONL01:Mock", "PKGO01:Mock")
+	// diagnostics of DIFFERENT codes of one analyzer nested inside one another on one line
+	lines(ua, `	d.MkS().Reset()
+	s.PM2(d.PF())
+	x.Xs[func() int { x.F = 15; return 0 }()] = 1
+	x.F = func() int { x.F++; return 1 }()
+	_ = d.T{F: new(d.T).F}
+	_ = d.T{F: func() int { var q d.T; return q.F }()}
+	d.MkS().
+		Reset()
+	s.
+		PM()`)
 	lines(ua, `	if y > 0 {
 		x.F = 2
 		_ = d.T{}
@@ -288,6 +311,8 @@ func g1(x d.T, s d.S) {
 	_ = d.T{}
 	d.Helper()
 	s.Reset()`)
+	lines(ub, `	_ = d.Wrap(d.Mock{})`, "TONL01:Mock", "PKGO01:Mock") // the file's first use of Mock sits inside a reported call
+	lines(ub, `	_ = d.PF2(d.PT{})`, "PKGO01:PT")
 	lines(ub, `	_ = d.Mock{}`, "TONL01:Mock", "PKGO01:Mock")
 	lines(ub, `	var m d.Mock`, "TONL01:Mock", "PKGO01:Mock")
 	lines(ub, `	_ = m
